@@ -271,10 +271,10 @@ FLOW_HW = [("Huawei S5700", ()), ("Huawei NE40E", ()), ("Cisco Nexus 3432", ()),
 FLOW_DEV_TEXTS = ["", "sysname x\n", "stp mode mstp\n", "netconf\nsysname x\n"]
 FLOW_GEN_ROWS = [[], ["sysname y"], ["stp mode mstp"], ["netconf", "sysname y"]]
 FLOW_ACL = "stp ~\nnetconf\nsysname\naaa\n    ~ %global\nsnmp-server ~\nip ~\n"
-NFLOW = len(FLOW_HW) * len(FLOW_DEV_TEXTS) * len(FLOW_GEN_ROWS)
+NFLOW = len(FLOW_HW) * len(FLOW_DEV_TEXTS) * len(FLOW_GEN_ROWS) * 2
 
 
-def check_flow(hi, di, gi):
+def check_flow(hi, di, gi, no_new=False):
     import logging
     logging.disable(logging.CRITICAL)
     from annet import gen as ann_gen, implicit, api
@@ -329,11 +329,12 @@ def check_flow(hi, di, gi):
         required_packages_check = False
     dev = Dev()
     ctx = ann_gen.OldNewDeviceContext(
-        config="-", args=Args(), downloaded_files={}, failed_files={}, running={}, failed_running={}, no_new=False,
+        config="-", args=Args(), downloaded_files={}, failed_files={}, running={}, failed_running={}, no_new=no_new,
         stdin={"config": FLOW_DEV_TEXTS[di], "filter_acl": ""}, add_annotations=False, add_implicit=True, do_files_download=False,
         gens=ann_gen.DeviceGenerators(partial={dev: [G(_St())]}, ref={dev: []}), fetched_packages={}, failed_packages={},
         device_count=1, do_print_perf=False)
-    base = {"hw": model, "device_text": FLOW_DEV_TEXTS[di], "generator_rows": rows}
+    # no_new: `--clear` mode, the generators' side is empty
+    base = {"hw": model, "device_text": FLOW_DEV_TEXTS[di], "generator_rows": rows, "clear_mode": no_new}
     try:
         res = ann_gen._old_new_per_device(ctx, dev, None)
         if res.err is not None:
@@ -343,7 +344,7 @@ def check_flow(hi, di, gi):
         paths = [tuple(p) for p in fmt.cmd_paths(patch)]
     except Exception as e:  # noqa
         return False, dict(base, error=repr(e)), "exception:%s" % type(e).__name__, True
-    explicit = set(k for k in parse_to_tree(FLOW_DEV_TEXTS[di], fmt.split)) | set(rows)
+    explicit = set(k for k in parse_to_tree(FLOW_DEV_TEXTS[di], fmt.split)) | (set() if no_new else set(rows))
     rules = implicit.compile_rules(dev)
     prefix = registry_connector.get().match(hw).reverse
     for p in paths:
@@ -364,9 +365,9 @@ def h_flow(case: int) -> bool:
     """
     c = pick(case, NFLOW)
     with NoTracing():
-        hi, di, gi = digits(c, [len(FLOW_HW), len(FLOW_DEV_TEXTS), len(FLOW_GEN_ROWS)])
-        ok, detail, kind, nt = check_flow(hi, di, gi)
-        rt.record({"flow": [hi, di, gi]}, ok, [hi, di, gi] if nt else None, detail=detail, fingerprint="C17:gen-flow:%s" % kind)
+        hi, di, gi, nn = digits(c, [len(FLOW_HW), len(FLOW_DEV_TEXTS), len(FLOW_GEN_ROWS), 2])
+        ok, detail, kind, nt = check_flow(hi, di, gi, bool(nn))
+        rt.record({"flow": [hi, di, gi, nn]}, ok, [hi, di, gi, nn] if nt else None, detail=detail, fingerprint="C17:gen-flow:%s" % kind)
     return ok
 
 
